@@ -72,7 +72,7 @@ def run(ctx):
     ctx.neg("OutlierDetectionMC", "OutlierDetectionNeg.cfg", expect="I_OnlyBelowMaxPercent", workers=4)
     binary = ctx.go_build("internal/xds/balancer/outlierdetection", name="c40", only=r"zz_verif_c40_")
     # the graph dump is an exhaustive model check of the generation scope (all invariants are in the cfg)
-    g = ctx.dump_graph("OutlierDetectionMC", ctx.pick("OutlierDetectionGen.cfg", "OutlierDetectionMC.cfg"), workers=ctx.pick(4, 8))
+    g = ctx.dump_graph("OutlierDetectionMC", ctx.pick("OutlierDetectionGen4.cfg", "OutlierDetectionGen.cfg"), workers=ctx.pick(4, 8))
     behs = ctx.edge_cover(g, step_of, limit=ctx.pick(1200, 8000))
     bpath = os.path.join(ctx.run, "beh.ndjson")
     tpath = os.path.join(ctx.run, "trace-replay.ndjson")
